@@ -409,12 +409,6 @@ next_loop_unlocked:
 
 	if (ret == LZMA_OK) {
 		if (partial_update != PARTIAL_DISABLED) {
-			// The main thread uses thr->mutex to change from
-			// PARTIAL_DISABLED to PARTIAL_START. The main thread
-			// doesn't care about this variable after that so we
-			// can safely change it here to PARTIAL_ENABLED
-			// without a mutex.
-			thr->partial_update = PARTIAL_ENABLED;
 			VERIF_VISIT(VERIF_D_MT_DEC, VERIF_MTD_PARTIAL_ENABLED);
 
 			// The main thread is reading decompressed data
@@ -427,6 +421,15 @@ next_loop_unlocked:
 			// it is possible that neither in_pos nor out_pos has
 			// changed.
 			mythread_sync(thr->coder->mutex) {
+				// The main thread uses thr->mutex to change
+				// from PARTIAL_DISABLED to PARTIAL_START and
+				// doesn't modify this variable after that,
+				// but it does read it in
+				// read_output_and_wait() while holding
+				// coder->mutex. Thus the change to
+				// PARTIAL_ENABLED is done with that mutex.
+				thr->partial_update = PARTIAL_ENABLED;
+
 				thr->outbuf->pos = thr->out_pos;
 				thr->outbuf->decoder_in_pos = thr->in_pos;
 				mythread_cond_signal(&thr->coder->cond);
